@@ -22,6 +22,7 @@ type SolveOpts struct {
 	AllSolvers bool  // thorough: ask every solver, record agreement
 	Seeds     []int
 	KeepFiles bool
+	noSplit   bool
 }
 
 func (o *Oblig) SMT(model bool, logic bool) string {
@@ -147,6 +148,34 @@ func dischargeOne(o *Oblig, opts SolveOpts) {
 			break
 		}
 		_ = si
+	}
+	if o.Status == "" && want == "unsat" && !opts.noSplit {
+		// tactic: a conjunctive goal is proved when each conjunct is (same context, same solvers)
+		if parts := splitGoal(o.Goal, 64); len(parts) > 1 {
+			all := true
+			for pi, part := range parts {
+				sub := &Oblig{Name: fmt.Sprintf("%s.part%d", o.Name, pi), Kind: o.Kind, Func: o.Func, CtxLen: o.CtxLen, Goal: part, Expect: "unsat", ctx: o.ctx, Pos: o.Pos}
+				so := opts
+				so.noSplit = true
+				dischargeOne(sub, so)
+				o.Time += sub.Time
+				if sub.Status == "failed" {
+					o.Status, o.Solver, o.Model = "failed", sub.Solver, sub.Model
+					notes = append(notes, fmt.Sprintf("conjunct %d/%d refuted: %s", pi+1, len(parts), sub.Note))
+					all = false
+					break
+				}
+				if sub.Status != "proved" {
+					notes = append(notes, fmt.Sprintf("conjunct %d/%d: %s", pi+1, len(parts), sub.Note))
+					all = false
+					break
+				}
+			}
+			if all {
+				o.Status = "proved"
+				o.Solver = fmt.Sprintf("split(%d)", len(parts))
+			}
+		}
 	}
 	if o.Status == "" {
 		o.Status = "unknown"
@@ -284,4 +313,31 @@ func Discharge(obs []*Oblig, opts SolveOpts) {
 	}
 	close(ch)
 	wg.Wait()
+}
+
+
+// splitGoal: the conjuncts of a goal (through implications and universal quantifiers), at most max.
+func splitGoal(g *Term, max int) []*Term {
+	var parts []*Term
+	switch {
+	case g.Op == "and":
+		for _, a := range g.Args {
+			parts = append(parts, splitGoal(a, max)...)
+		}
+	case g.Op == "=>" && len(g.Args) == 2:
+		for _, q := range splitGoal(g.Args[1], max) {
+			parts = append(parts, Implies(g.Args[0], q))
+		}
+	case g.Op == "forall" && len(g.Args) == 1:
+		sub := splitGoal(g.Args[0], max)
+		if len(sub) > 1 {
+			for _, q := range sub {
+				parts = append(parts, Forall(g.Bound, q, nil))
+			}
+		}
+	}
+	if len(parts) <= 1 || len(parts) > max {
+		return []*Term{g}
+	}
+	return parts
 }
